@@ -16,6 +16,15 @@ SOLVER_TEXT = {
 
 
 def run(pid: str, tier: str, seed: int, replay: str | None) -> int:
+    if replay:
+        # a replay file records (property, tier, seed) and the failing cases; every campaign is a deterministic function of
+        # (sources, tier, seed), so replaying = running the same campaign again and showing the recorded cases for comparison
+        import json
+        d = json.load(open(replay))
+        print(f"replaying {replay}: property={d['property']} tier={d['tier']} seed={d['seed']} recorded_cases={len(d['cases'])}")
+        for c in d['cases'][:3]:
+            print('  recorded:', json.dumps(c, default=str)[:400])
+        return run(d['property'], d['tier'], int(d['seed']), None)
     if pid == 'C05':
         from . import units_drv
         return units_drv.run(tier, seed)
